@@ -41,8 +41,10 @@ AfterC(e) == CASE e.op \in {"New", "NewFilled", "NewJagged"} -> <<>>
 IsNew(e) == e.op \in {"New", "NewFilled", "NewJagged"}
 RECURSIVE Join(_)
 Join(q) == IF q = <<>> THEN "" ELSE IF Len(q) = 1 THEN q[1] ELSE q[1] \o " " \o Join(Tail(q))
-RowStr(r) == "[" \o Join([i \in 1..Len(r) |-> ToString(r[i])]) \o "]"
-GridStr(gr) == "[" \o Join([i \in 1..Len(gr) |-> RowStr(gr[i])]) \o "]"
+\* how one cell prints: ints as numbers; for the string-typed arrays the driver stores "" for 0 and "s<v>" otherwise
+Cell(ty, v) == IF ty = "string" THEN (IF v = 0 THEN "" ELSE "s" \o ToString(v)) ELSE ToString(v)
+RowStr(ty, r) == "[" \o Join([i \in 1..Len(r) |-> Cell(ty, r[i])]) \o "]"
+GridStr(ty, gr) == "[" \o Join([i \in 1..Len(gr) |-> RowStr(ty, gr[i])]) \o "]"
 \* "Set(x,y,v) changes cell (x,y) and no other, Get returns the last value stored there" / Fill / New2DFilled / New2DFromJagged
 C_Grid(g2, e) == e.grid = g2
 \* "any coordinate outside the bounds panics without altering the array"; nothing else panics
@@ -53,7 +55,7 @@ C_Window(g2, w2, e) == e.win = [i \in 1..Len(w2) |-> g2[w2[i][2] + 1][w2[i][1] +
 \* "Clone is independent of the original"
 C_Clone(c2, e) == IF c2 = <<>> THEN e.cgrid = <<>> ELSE e.cgrid = c2[1]
 C_Dims(ww, hh, e) == e.width = ww /\ e.height = hh
-C_String(g2, e) == e.str = GridStr(g2)
+C_String(g2, e) == e.str = GridStr(e.ty, g2)
 TInit == w = 0 /\ h = 0 /\ g = <<>> /\ wc = <<>> /\ cg = <<>> /\ l = 1
 Reset == /\ l <= Len(Trace) /\ Ev.op = "Reset" /\ l' = l + 1 /\ w' = 0 /\ h' = 0 /\ g' = <<>> /\ wc' = <<>> /\ cg' = <<>>
 Step == /\ l <= Len(Trace) /\ Ev.op # "Reset" /\ l' = l + 1
